@@ -44,6 +44,8 @@ static void gen_pump(int tier)
 		gx_add_fault(FS_PIPE2, -1, 1, 1, ENOSYS, 0, 0);
 	if (P(25))
 		G->cfg.pipe_sz = 4096;
+	if (P(8))
+		gx_add_fault(FS_PIPE2, -1, 1 + R(6), 0, EMFILE, 0, 0);	/* no descriptors left for a buffer pipe, once */
 	for (i = 0; i < npumps; i++) {
 		int a = gx_add_obj(K_CHAN, -1), b = gx_add_obj(K_CHAN, -1), pu = gx_add_obj(K_PUMP, 0);
 		long total = P(10) ? 0 : P(60) ? 1 + R(20000) : 1 + R(big ? 300000 : 120000), sent = 0;
